@@ -1,6 +1,7 @@
 import Ark.Proofs.Table
 import Ark.Proofs.Rejects
 import Ark.Generated.FactsEvents
+import Ark.Props.C06Hist
 
 namespace Ark.Props.C06
 open Ark
@@ -31,5 +32,76 @@ theorem batch_locked_rejected : type_of% @World.exchangeBatch_locked := @World.e
 theorem batch_event_order_in_source :
     (Generated.eventOrder.filter fun p => p.1 == "World.exchangeBatch" || p.1 == "World.setRelationsBatch").map (·.2) =
       [["lock", "fireRemove", "mutate", "fireAdd", "unlock"], ["lock", "fireRemove", "mutate", "fireAdd", "unlock"]] := by decide
+
+
+/-! ### World level (Props/C06World): a batch equals the fold of the single operation -/
+
+/-- **creation**: `NewBatch(count, ids)` without callback leaves exactly the world that `count` successive `NewEntity(ids)` leave (world equality), same handles in the same order -/
+theorem world_newBatch_eq_singles : type_of% @Ark.Props.C06World.newBatch_eq_singles := @Ark.Props.C06World.newBatch_eq_singles
+
+/-- … with callback: the same world up to the lock's bit pool and one callback record per entity, in order, on a locked world -/
+theorem world_newBatchFn_eq_singles : type_of% @Ark.Props.C06World.newBatchFn_eq_singles := @Ark.Props.C06World.newBatchFn_eq_singles
+
+/-- `World.NewEntities(count)` = `count` × `World.NewEntity()` -/
+theorem world_newEntities_eq_singles : type_of% @Ark.Props.C06World.newEntities_eq_singles := @Ark.Props.C06World.newEntities_eq_singles
+
+/-- … with callback -/
+theorem world_newEntitiesFn_eq_singles : type_of% @Ark.Props.C06World.newEntitiesFn_eq_singles := @Ark.Props.C06World.newEntitiesFn_eq_singles
+
+/-- finding: `NewBatch(0, ids)` still creates the archetype and table of `ids` -/
+theorem world_newBatch_zero : type_of% @Ark.Props.C06World.newBatch_zero := @Ark.Props.C06World.newBatch_zero
+
+/-- `createEntities t n` = n × take a handle, place it in the next row, index it -/
+theorem world_createEntities_is_iterated_placeNew : type_of% @Ark.Props.C06World.createEntities_is_iterated_placeNew := @Ark.Props.C06World.createEntities_is_iterated_placeNew
+
+/-- **selection**: the entities a batch selects are exactly the alive entities whose component mask matches the filter -/
+theorem world_batch_selects_matching_alive : type_of% @Ark.Props.C06World.batch_selects_matching_alive := @Ark.Props.C06World.batch_selects_matching_alive
+
+/-- the tables a batch walks are exactly the `Selected` ones -/
+theorem world_batch_tables_selected : type_of% @Ark.Props.C06World.batch_tables_selected := @Ark.Props.C06World.batch_tables_selected
+
+/-- **removal**: `RemoveEntities(filter)` and `RemoveEntity` on each selected entity both succeed and leave the same liveness, values, component sets and pool -/
+theorem world_removeEntities_eq_singles : type_of% @Ark.Props.C06World.removeEntities_eq_singles := @Ark.Props.C06World.removeEntities_eq_singles
+
+/-- … in any order of the single removals (only the free-list order differs) -/
+theorem world_removeEntities_any_order : type_of% @Ark.Props.C06World.removeEntities_any_order := @Ark.Props.C06World.removeEntities_any_order
+
+/-- … with callback: one record per entity, all before the first removal -/
+theorem world_removeEntitiesFn_eq : type_of% @Ark.Props.C06World.removeEntitiesFn_eq := @Ark.Props.C06World.removeEntitiesFn_eq
+
+/-- two worlds satisfying the removal post-condition agree on every observation -/
+theorem world_removed_obs_eq : type_of% @Ark.Props.C06World.removed_obs_eq := @Ark.Props.C06World.removed_obs_eq
+
+/-- **add / remove / exchange batches**: the batch and the fold of the single operation both succeed and agree on pool, liveness, every value and every component set -/
+theorem world_exchangeBatch_eq_singles : type_of% @Ark.Props.C06World.exchangeBatch_eq_singles := @Ark.Props.C06World.exchangeBatch_eq_singles
+
+/-- … with callback; the callback runs once per selected entity, on a locked world, seeing the kept values and zeros for added components -/
+theorem world_exchangeBatchFn_eq_singles : type_of% @Ark.Props.C06World.exchangeBatchFn_eq_singles := @Ark.Props.C06World.exchangeBatchFn_eq_singles
+
+/-- the callback log of an exchange batch, explicitly -/
+theorem world_callback_records : type_of% @Ark.Props.C06World.callback_records := @Ark.Props.C06World.callback_records
+
+/-- two worlds satisfying the exchange post-condition agree on every observation -/
+theorem world_exchanged_obs_eq : type_of% @Ark.Props.C06World.exchanged_obs_eq := @Ark.Props.C06World.exchanged_obs_eq
+
+/-- the side condition `RowsLive` holds initially -/
+theorem world_rowsLive_initially : type_of% @Ark.Props.C06World.rowsLive_initially := @Ark.Props.C06World.rowsLive_initially
+
+/-! ### … at every state reached by a history (Props/C06Hist) -/
+
+/-- after every history of the refinement machine the hypotheses of the batch theorems hold -/
+theorem hist_reach_batch_hyps : type_of% @Ark.Props.C06Hist.reach_batch_hyps := @Ark.Props.C06Hist.reach_batch_hyps
+
+/-- batch removal = single removals at every reachable state -/
+theorem hist_removeEntities_eq_singles : type_of% @Ark.Props.C06Hist.removeEntities_eq_singles := @Ark.Props.C06Hist.removeEntities_eq_singles
+
+/-- the selection of a batch at every reachable state -/
+theorem hist_batch_selects_matching_alive : type_of% @Ark.Props.C06Hist.batch_selects_matching_alive := @Ark.Props.C06Hist.batch_selects_matching_alive
+
+/-- batch add/remove/exchange = single exchanges at every reachable state -/
+theorem hist_exchangeBatch_eq_singles : type_of% @Ark.Props.C06Hist.exchangeBatch_eq_singles := @Ark.Props.C06Hist.exchangeBatch_eq_singles
+
+/-- batch creation = single creations at every reachable state -/
+theorem hist_newBatch_eq_singles : type_of% @Ark.Props.C06Hist.newBatch_eq_singles := @Ark.Props.C06Hist.newBatch_eq_singles
 
 end Ark.Props.C06
